@@ -93,6 +93,31 @@ theorem wrtA_ok (R : RInterp ν) (O : DOps ν) (hO : OpsSound R O) (x : String) 
     obtain ⟨e, rfl, da, hda, hch⟩ := h
     exact ⟨_, da, by simp [ev_none R O hO], hda, hch⟩
 
+theorem F1_exp : realF1 "exp" = Real.exp := by funext v; simp [realF1]
+theorem F1_sin : realF1 "sin" = Real.sin := by funext v; simp [realF1]
+theorem F1_cos : realF1 "cos" = Real.cos := by funext v; simp [realF1]
+theorem F1_tan : realF1 "tan" = Real.tan := by funext v; simp [realF1]
+theorem F1_sqrt : realF1 "sqrt" = Real.sqrt := by funext v; simp [realF1]
+theorem F1_log : realF1 "log" = Real.log := by funext v; simp [realF1]
+theorem F1_log10 : realF1 "log10" = fun v => Real.log v / Real.log 10 := by funext v; simp [realF1]
+theorem F1_asin : realF1 "asin" = Real.arcsin := by funext v; simp [realF1]
+theorem F1_acos : realF1 "acos" = Real.arccos := by funext v; simp [realF1]
+theorem F1_atan : realF1 "atan" = Real.arctan := by funext v; simp [realF1]
+theorem F1_sinh : realF1 "sinh" = Real.sinh := by funext v; simp [realF1]
+theorem F1_cosh : realF1 "cosh" = Real.cosh := by funext v; simp [realF1]
+theorem F1_tanh : realF1 "tanh" = Real.tanh := by funext v; simp [realF1]
+
+theorem hasDerivAt_tanh' (v : ℝ) : HasDerivAt Real.tanh (1 / (Real.cosh v * Real.cosh v)) v := by
+  have hc : Real.cosh v ≠ 0 := ne_of_gt (Real.cosh_pos v)
+  have h := (Real.hasDerivAt_sinh v).div (Real.hasDerivAt_cosh v) hc
+  have he : (Real.sinh / Real.cosh) = Real.tanh := by
+    funext y; simp [Real.tanh_eq_sinh_div_cosh]
+  rw [he] at h
+  convert h using 1
+  have h1 : Real.cosh v * Real.cosh v - Real.sinh v * Real.sinh v = 1 := by
+    have := Real.cosh_sq v; nlinarith
+  rw [h1, pow_two]
+
 theorem dep_not_const (x : String) (e : Expr ν) (h : e.dependsOn x = true) : e.isConstant = false := by
   induction e with
   | num s v => simp [dependsOn] at h
@@ -316,7 +341,7 @@ theorem diff_sound (R : RInterp ν) (O : DOps ν) (hO : OpsSound R O) (x : Strin
     simp only [diff] at h
     by_cases hr : hasRule c = true
     swap
-    · simp only [hr, Bool.not_false, Bool.false_eq_true, if_true] at h; simp at h; cases h
+    · simp only [hr, Bool.not_false, Bool.false_eq_true, if_true] at h; simp at h
     simp only [hr, Bool.not_true, Bool.false_eq_true, if_false] at h
     rcases bool_cases (a.dependsOn x) with ha | ha
     · simp only [ha, Bool.not_false, if_true, except_pure_ok] at h; subst h
@@ -330,7 +355,87 @@ theorem diff_sound (R : RInterp ν) (O : DOps ν) (hO : OpsSound R O) (x : Strin
         simpa [hasRule] using hr
       simp only [List.mem_cons, List.not_mem_nil, or_false] at hc
       rcases hc with rfl | rfl | rfl | rfl | rfl | rfl | rfl | rfl | rfl | rfl | rfl | rfl | rfl
-      all_goals sorry
+      · -- exp
+        simp only [] at h
+        rw [chain_ev R O hO _ _ _ h, F1_exp]
+        exact comp_rule (Real.hasDerivAt_exp _) hda (by simp [F_self, F1_exp])
+      · -- sin
+        simp only [] at h
+        rw [chain_ev R O hO _ _ _ h, F1_sin]
+        exact comp_rule (Real.hasDerivAt_sin _) hda (by simp [F_self, F1_cos])
+      · -- cos
+        simp only [] at h
+        rw [chain_ev R O hO _ _ _ h, F1_cos]
+        exact comp_rule (Real.hasDerivAt_cos _) hda (by simp [F_self, F1_sin])
+      · -- tan
+        simp only [] at h
+        have hcos : Real.cos (ev R a) ≠ 0 := by simpa [dom] using hdom
+        rw [chain_ev R O hO _ _ _ h, F1_tan]
+        refine comp_rule (Real.hasDerivAt_tan (by rw [F_self]; exact hcos)) hda ?_
+        simp only [ev_add, ev_mul, ev_fn1, F1_tan, ev_none R O hO, F_self]
+        congr 1
+        rw [Real.tan_eq_sin_div_cos]
+        field_simp
+        nlinarith [Real.sin_sq_add_cos_sq (ev R a)]
+      · -- sqrt
+        simp only [] at h
+        have hpos : 0 < ev R a := by simpa [dom] using hdom
+        rw [chain_ev R O hO _ _ _ h, F1_sqrt]
+        refine comp_rule (Real.hasDerivAt_sqrt (by rw [F_self]; exact ne_of_gt hpos)) hda ?_
+        simp only [ev_div, ev_num, ev_fn1, F1_sqrt, hO.half, F_self]
+        congr 1
+        have : Real.sqrt (ev R a) ≠ 0 := ne_of_gt (Real.sqrt_pos.mpr hpos)
+        field_simp
+      · -- log
+        simp only [except_pure_ok] at h; subst h
+        have hpos : 0 < ev R a := by simpa [dom] using hdom
+        rw [F1_log]
+        refine comp_rule (Real.hasDerivAt_log (by rw [F_self]; exact ne_of_gt hpos)) hda ?_
+        simp only [ev_div, F_self]; field_simp
+      · -- log10
+        simp only [except_pure_ok] at h; subst h
+        have hpos : 0 < ev R a := by simpa [dom] using hdom
+        rw [F1_log10]
+        refine comp_rule ((Real.hasDerivAt_log (by rw [F_self]; exact ne_of_gt hpos)).div_const _) hda ?_
+        have hl : Real.log 10 ≠ 0 := ne_of_gt (Real.log_pos (by norm_num))
+        have ha0 : ev R a ≠ 0 := ne_of_gt hpos
+        simp only [ev_div, ev_mul, ev_num, hO.ln10, F_self]; field_simp
+      · -- asin
+        simp only [except_pure_ok] at h; subst h
+        have hd2 : -1 < ev R a ∧ ev R a < 1 := by simpa [dom] using hdom
+        rw [F1_asin]
+        refine comp_rule (Real.hasDerivAt_arcsin (by rw [F_self]; exact ne_of_gt hd2.1)
+          (by rw [F_self]; exact ne_of_lt hd2.2)) hda ?_
+        simp only [ev_div, ev_fn1, ev_sub, ev_mul, F1_sqrt, ev_none R O hO, F_self, pow_two]
+        ring
+      · -- acos
+        simp only [except_pure_ok] at h; subst h
+        have hd2 : -1 < ev R a ∧ ev R a < 1 := by simpa [dom] using hdom
+        rw [F1_acos]
+        refine comp_rule (Real.hasDerivAt_arccos (by rw [F_self]; exact ne_of_gt hd2.1)
+          (by rw [F_self]; exact ne_of_lt hd2.2)) hda ?_
+        simp only [ev_div, ev_fn1, ev_sub, ev_mul, ev_num, hO.mone, F1_sqrt, ev_none R O hO, F_self, pow_two]
+        ring
+      · -- atan
+        simp only [except_pure_ok] at h; subst h
+        rw [F1_atan]
+        refine comp_rule (Real.hasDerivAt_arctan _) hda ?_
+        simp only [ev_div, ev_add, ev_mul, ev_none R O hO, F_self, pow_two]
+        ring
+      · -- sinh
+        simp only [] at h
+        rw [chain_ev R O hO _ _ _ h, F1_sinh]
+        exact comp_rule (Real.hasDerivAt_sinh _) hda (by simp [F_self, F1_cosh])
+      · -- cosh
+        simp only [] at h
+        rw [chain_ev R O hO _ _ _ h, F1_cosh]
+        exact comp_rule (Real.hasDerivAt_cosh _) hda (by simp [F_self, F1_sinh])
+      · -- tanh
+        simp only [except_pure_ok] at h; subst h
+        rw [F1_tanh]
+        refine comp_rule (hasDerivAt_tanh' _) hda ?_
+        simp only [ev_div, ev_mul, ev_fn1, F1_cosh, F_self]
+        ring
   | fn2 f a b _ _ => intro e' hp h hs; simp [diff] at h
   | cond c a b ihc iha ihb => sorry
   | cmp o a b _ _ => intro e' hp h hs; simp [SideOK] at hs
